@@ -5,6 +5,16 @@ from vlib import lcplan
 def plan(tier):
     qs = lcplan.err_queries(tier) + lcplan.inert_queries(tier) + lcplan.par_err_queries(tier)
     qs += [q for q in lcplan.par_allocfail_queries(tier) if q.name.startswith('inert')]
+    # invalid byte counts larger than a batch, through the real drivers and the real batch functions of every back end
+    from vlib.core import LL
+    for (c, v, L) in [(1, 0, 4), (1, 128, 4), (1, 256, 8), (2, 0, 8), (2, 128, 8), (3, 0, 8), (3, 128, 8)]:
+        nmx = '%s-%s' % (CTR_CIPH[c], 'generic' if v == 0 else 'vec%d' % v)
+        ll = [LL('src/%s-parallel-vec%d.c' % (CTR_CIPH[c], v), flags=('-mavx2' if v == 256 else '-msse2',))] if v else []
+        for d in ((0,) if c == 3 else (0, 1)):
+            for (nb, extra) in ((L, 1), (2 * L, 3)):
+                qs.append(Q('badsize:%s:%s:%dblk+%d' % (nmx, 'dec' if d else 'enc', nb, extra), 'c07.c',
+                            'parallel %s of %d blocks + %d bytes on the %s back end (real driver and batch functions, 1-round arbitrary schedule): returns 0 and the output buffer is byte-identical' % ('decrypt' if d else 'encrypt/crypt', nb, extra, nmx),
+                            defs={'CIPHER': c, 'VEC': v, 'OB_BADSIZE': 1, 'NBLK': nb, 'EXTRA': extra, 'DIR': d, 'NR': 1}, ll=ll, timeout=900, fsarray=1300, sanitize=True))
     return dict(queries=qs, level='model_checking', pre=[pre_layout],
                 functions=['every int-returning public CTR function (dispatcher + generic back end; vector back-end entry points from clang IR)', 'every public parallel-ECB function',
                            'plain key/tweak functions: null object / null key classes are in C10/C04 harnesses (reject, badlen, null)'],
